@@ -6,8 +6,11 @@
 //!    `run_tests` (counter state, loop source, loop body, final decision);
 //!  * src/pipeline.rs: `Package<NoCtx>::run_tests`, `Package<Ctx<C>>::run_tests`, `Package::get_tests`,
 //!    `Package::get_function`;
-//!  * src/codegen/mod.rs: `Module::get_function` — the key it looks a name up under
-//!    (`format!("pkg.{name}")` ↦ concatenation) and the shape of the look-up;
+//!  * src/codegen/mod.rs: `Module::get_function`, statement by statement — the key it looks a
+//!    name up under (`format!("pkg.{name}")` ↦ concatenation), the one look-up, every exit
+//!    with its error, the order of the parameter / return-type checks;
+//!  * private helper functions (free `fn`s of the same file called by plain name) of
+//!    `get_tests` and `cli_inner`, each as a generated `@[simp]` definition;
 //!  * src/cli.rs: `enum Command`, every arm of `cli_inner`, `cli`;
 //!  * src/typechecker/function.rs `test` and src/mir/lower.rs `test`: the
 //!    `format!("test#…")` name and the signature a test gets.
@@ -26,7 +29,9 @@
 //!  * `e?` ↦ `(← try_ e)`, `return Err(x)` ↦ `throw x` (in the CLI monad);
 //!  * string literals ↦ lists of characters; `rsplit_once("<c>")` ↦
 //!    `rsplit_once_char _ '<c>'`;
-//!  * `get_function::<T>(n)` ↦ `get_function sigOf(T) n`.
+//!  * `get_function::<T>(n)` ↦ `get_function sigOf(T) n`;
+//!  * `.cloned()`/`.copied()` on an iterator ↦ the iterator, `sort_unstable()` on strings ↦ `sort`,
+//!    `is_ok()/is_err()`; `match` / `if let` over the counter updates of the loop body.
 //! Anything else is an extraction failure.
 
 #[allow(unused_imports)]
